@@ -185,6 +185,9 @@ int main(int argc, char** argv) {
   for (unsigned n : {2u, 3u, 4u, 5u, 7u}) grids.push_back({"linear" + std::to_string(n), 0, -1.0, 3.0, lin(n, -1.0, 3.0)});
   for (unsigned n : {2u, 3u, 5u}) grids.push_back({"log" + std::to_string(n), 1, 0.1, 20.0, lg(n, 0.1, 20.0)});
   grids.push_back({"user-a", 2, 0, 0, {-2.0, -1.63, 1.48, 4.33, 9.0}}); grids.push_back({"user-b", 2, 0, 0, {0.01, 0.0158, 0.05, 2.0}}); grids.push_back({"user-c", 2, 0, 0, {-5.0, 1.0, 1.001, 100.0}});
+  // neighbouring nodes that are adjacent doubles (a strictly increasing grid all the same): one-ulp intervals at the start, inside, at the end
+  grids.push_back({"user-ulp-inside", 2, 0, 0, {0.5, 1.0, std::nextafter(1.0, 2.0), 2.0}});
+  grids.push_back({"user-ulp-ends", 2, 0, 0, {-3.0, std::nextafter(-3.0, 0.0), 0.75, 4.0, std::nextafter(4.0, 5.0)}});
   // elapsed time may be negative (Evolve(-dt) without numerics just moves the clock back): "any t-t_ini"
   std::vector<TimeCfg> tcs = {{0, 0, false}, {1.5, 0, false}, {1.5, 0.5, false}, {0, 2, false}, {1.5, 2, false}, {1.5, 0.5, true}, {0, 2, true}, {1.5, -1.25, false}, {0, -0.6, false}};
   if (ar.reduced) { grids.resize(3); tcs = {{1.5, 0.5, false}, {0, 2, true}, {1.5, -1.25, false}}; }
